@@ -72,4 +72,4 @@ impl RangeBounds<Key> for RangeFromExclusive {
 
 #[cfg(kani)]
 #[path = "/verif/units/kani/beatree_index.rs"]
-mod verif_kani;
+pub(crate) mod verif_kani;
